@@ -57,22 +57,23 @@ func between(r *rand.Rand, lohi [2]int) int {
 }
 
 type hist struct {
-	t        *testing.T
-	w        *sim.World
-	m        *sim.Model
-	rng      *rand.Rand
-	rec      *sim.Rec
-	k        Knobs
-	v6       bool
-	clients  []*sim.RawClient
-	peers    []*sim.Peer // permitted-able peers
-	denied   []*sim.Peer
-	relays   []*net.UDPAddr
-	ctr      uint64
-	step     int
-	usedNums map[*sim.RawClient][]uint16
-	actor    *sim.RawClient
-	crossFx  bool
+	wildcardTCP bool
+	t           *testing.T
+	w           *sim.World
+	m           *sim.Model
+	rng         *rand.Rand
+	rec         *sim.Rec
+	k           Knobs
+	v6          bool
+	clients     []*sim.RawClient
+	peers       []*sim.Peer // permitted-able peers
+	denied      []*sim.Peer
+	relays      []*net.UDPAddr
+	ctr         uint64
+	step        int
+	usedNums    map[*sim.RawClient][]uint16
+	actor       *sim.RawClient
+	crossFx     bool
 }
 
 func (h *hist) payload(n int) []byte {
@@ -125,6 +126,12 @@ func newHist(t *testing.T, rng *rand.Rand, rec *sim.Rec, k Knobs) *hist {
 	nTCP := between(rng, k.TCPClients)
 	if nTCP > 0 {
 		cfg.TCPListeners = []*net.TCPAddr{{IP: sim.ServerIP4, Port: 3478}}
+		if rng.Intn(3) == 0 {
+			// the usual production binding: the wildcard address; accepted connections then have
+			// a concrete local address that differs from the listener's
+			cfg.TCPListeners[0].IP = net.IPv4zero.To4()
+			h.wildcardTCP = true
+		}
 	}
 	deniedIP4 := net.IPv4(10, 2, 9, 9).To4()
 	deniedIP6 := net.ParseIP("fd00:2::99")
@@ -587,7 +594,7 @@ func (h *hist) opCloseTCP() {
 			h.m.ClientClosed(c)
 			h.m.Audit(nil)
 			h.m.CrossCheck()
-			h.rec.FP("tcp-control-close")
+			h.rec.FP("tcp-control-close/wildcard=%v", h.wildcardTCP)
 
 			return
 		}
